@@ -140,3 +140,11 @@ META["C01"] = dict(
                 "between PLAY and a flush point unless a queue-full was reported."),
     level_note=("Trusted: loopback networking; the flush-by-sentinel barrier (5 s); goroutine interleavings are sampled by repetition, not controlled."),
 )
+
+META["C12"] = dict(
+    design_ref="DESIGN.md section 4, C12",
+    technique="property-based testing (rapid) with fault injection: generated client programs against a scripted server whose deviations are generated rules; latency, liveness and leak oracles; process deaths attributed through a case journal and shrunk by delta debugging in fresh processes",
+    level_text=("Exploration: generated hostile-server scripts x client configurations x API programs; every call is timed against a bound derived "
+                "from the requests the server saw, panics are caught as process deaths, goroutines and sockets are counted after Close."),
+    level_note=("Trusted: the scripted server's rule vocabulary (it cannot produce deviations outside it); loopback; the 3 s settle time for the leak census."),
+)
